@@ -9,6 +9,11 @@ PARAMS = ['factor_update_steps', 'inv_update_steps', 'damping',
           'factor_decay', 'kl_clip', 'lr']
 INIT = {'factor_update_steps': 4, 'inv_update_steps': 8, 'damping': 0.01,
         'factor_decay': 0.9, 'kl_clip': 0.002, 'lr': 0.1}
+# a second set of constants that are int-valued (valid values: the
+# truncation must depend on the parameter, not on the value's type)
+INIT_INT = {'factor_update_steps': 3, 'inv_update_steps': 5, 'damping': 2,
+            'factor_decay': 1, 'kl_clip': 1, 'lr': 1}
+INITS = {'float': INIT, 'int': INIT_INT}
 INTS = ('factor_update_steps', 'inv_update_steps')
 
 
@@ -20,11 +25,11 @@ def lam(pi, seed):
     return f
 
 
-def mk_precond(callable_params=()):
+def mk_precond(callable_params=(), init='float'):
     from kfac.base_preconditioner import BaseKFACPreconditioner
     from kfac.distributed import TorchDistributedCommunicator
 
-    kw = dict(INIT)
+    kw = dict(INITS[init])
     for p in callable_params:
         v = INIT[p]
         kw[p] = (lambda s, v=v: v)
@@ -50,7 +55,8 @@ def apply_ref(ref, op, subset, lams):
 
 
 def subset_case(part, item):
-    subset, depth, seed = item
+    subset, depth, seed = item[:3]
+    init = item[3] if len(item) > 3 else 'float'
     from kfac.scheduler import LambdaParamScheduler
 
     lams = [lam(pi, seed) for pi in range(len(PARAMS))]
@@ -62,9 +68,9 @@ def subset_case(part, item):
         for hist in frontier:
             for op in OPS:
                 h = hist + (op,)
-                pre = mk_precond()
+                pre = mk_precond(init=init)
                 sch = LambdaParamScheduler(pre, **kw)
-                ref = dict(INIT, steps=0)
+                ref = dict(INITS[init], steps=0)
                 ok = True
                 for i, o in enumerate(h):
                     if o == 'adv':
@@ -91,10 +97,10 @@ def subset_case(part, item):
                                 and p != 'steps' else 'value')
                         part.violation(
                             f'{kind}:{p}',
-                            f'subset={sorted(subset)} history={h}: {p}='
-                            f'{a!r} expected {b!r}',
+                            f'subset={sorted(subset)} init={init} history={h}'
+                            f': {p}={a!r} expected {b!r}',
                             {'kind': 'sched', 'subset': sorted(subset),
-                             'depth': len(h), 'seed': seed})
+                             'depth': len(h), 'seed': seed, 'init': init})
                         return
                 k = tuple(sorted(got.items()))
                 if k not in seen:
@@ -175,13 +181,15 @@ def main(run: core.Run):
     depth = 6 if thorough else 5
     subsets = [frozenset(c) for r in range(len(PARAMS) + 1)
                for c in itertools.combinations(PARAMS, r)]
-    core.pmap(run, subset_case, [(s, depth, run.seed) for s in subsets],
+    core.pmap(run, subset_case,
+              [(s, depth, run.seed, 'float') for s in subsets] +
+              [(s, min(depth, 4), run.seed, 'int') for s in subsets],
               chunk=1)
     core.pmap(run, ctor_case, [(cp, s) for cp in [None] + PARAMS
                                for s in subsets], chunk=64)
     kmax = 10 ** 6 if thorough else 10 ** 4
     dec = []
-    for cap in (1e-9, 0.5, 0.95, 1, 5, 0, -1.0):
+    for cap in (1e-9, 0.3, 0.5, 0.6, 0.7, 0.95, 0.97, 0.999, 1, 5, 0, -1.0):
         for lo in range(-3, kmax, 50000):
             dec.append((cap, lo, min(kmax + 1, lo + 50000)))
     core.pmap(run, decay_case, dec, chunk=1)
@@ -190,11 +198,12 @@ def main(run: core.Run):
         f'history BFS to depth {depth} over {{step(), step(0), step(3), '
         'step(7), advance the preconditioner step}} for all 64 subsets of '
         'scheduled parameters with distinct strictly step-dependent '
-        'non-integer factor functions, in lock-step with a dictionary '
+        'non-integer factor functions, for float-valued and int-valued '
+        'initial constants, in lock-step with a dictionary '
         'reference (exact float equality; states deduplicated by '
         'hyper-parameter tuple); constructor: 7 x 64 (callable parameter, '
         f'subset) pairs; exp_decay_factor_averaging for every k in -3..{kmax}'
-        ' x 7 caps; non-trivial = non-empty subsets, ctor pairs, decay '
+        ' x 12 caps (incl. non-integer 1/(1-cap)); non-trivial = non-empty subsets, ctor pairs, decay '
         'ranges')
     run.sample({'subset': ['damping', 'inv_update_steps'],
                 'history': ['step', 'adv', 'step3', 'step']})
@@ -208,7 +217,8 @@ def replay(run, data):
     d = data['detail']
     part = core.Part()
     if d['kind'] == 'sched':
-        subset_case(part, (frozenset(d['subset']), d['depth'], d['seed']))
+        subset_case(part, (frozenset(d['subset']), d['depth'], d['seed'],
+                           d.get('init', 'float')))
     elif d['kind'] == 'ctor':
         ctor_case(part, (d['cparam'], frozenset(d['subset'])))
     else:
